@@ -14,7 +14,9 @@ SPEC = dict(
              'range for its width or its TL-B encoding does not fit the remaining bits/refs (c07_refuse_iff, both directions; '
              'c07_refuse_iff_composite for store_cell/store_slice with the REMAINING refs of the slice); the primitive consuming reads return '
              'exactly the next bits and advance by exactly that many, and raise leaving the slice unchanged when more is requested than remains '
-             '(c07_read_bounds); every typed read leaves a suffix of its input (c07_read_suffix). The model is tied to the working tree by '
+             '(c07_read_bounds); every typed read leaves a suffix of its input (c07_read_suffix); the capacity comparisons themselves (check_overflow/'
+             'check_underflow, the refs tests of store_ref/store_cell/store_slice) are re-translated from the source on every run and proved to refuse '
+             'exactly beyond 1023 bits / 4 refs (c07_src_*). The model is tied to the working tree by '
              'differential testing of builder histories at every fill level and of over-reads, each also checked on the library alone against an '
              'independent fits/range predictor.',
         level_note='Proved for all inputs: the statements above, about Model/Builder.lean. Only sampled: that the Python code behaves as the model '
